@@ -46,7 +46,8 @@ let alphabet = [ "CONNECT", Connect; "DISCONNECT", Disconnect; "STOP", Stop; "RE
   "XYR", XDestroyRead; "XYD", XDestroyRest; "EVWY", XDestroyInWrite;
   "CR ECONNREFUSED", ConnectResult (z_of_int 111); "CR EACCES", ConnectResult (z_of_int 13); "CR 0", ConnectResult (z_of_int 0);
   "EVW 0 0", EvWritable (z_of_int 0, false); "EVW ECONNREFUSED 0", EvWritable (z_of_int 111, false); "EVW 0 1", EvWritable (z_of_int 0, true);
-  "EVE", EvError; "TF", TimerFire; "RUN", RunPending; "RUN1", RunOne; "DOWN", Down; "HOLD", UserHold; "REL", UserRelease ]
+  "EVE", EvError; "TF", TimerFire; "RUN", RunPending; "RUN1", RunOne; "DOWN", Down; "HOLD", UserHold; "REL", UserRelease;
+  "LOOPEND", LoopEnd ]
 let norm (s: st) = { s with now = z_of_int 0; timers = List.map (fun (d, k) -> (z_of_int (int_of_z d - int_of_z s.now), k)) s.timers }
 let enumerate depth use_text =
   let ok s o = if use_text then text_contract s o else contract s o in
@@ -83,12 +84,12 @@ let pick profile =
     | 2 -> (* churn: connections come up and go down, retry mostly on *)
       [ 4, `RETRY; 5, `CONNECT; 8, `EVW0; 8, `RUN; 6, `DOWN; 2, `DISCONNECT; 2, `STOP; 2, `TF; 1, `CRr; 1, `EVWe; 1, `HOLD; 1, `REL; 1, `RUN1 ]
     | 3 -> (* destruction at every point, user references *)
-      [ 4, `CONNECT; 5, `EVW0; 5, `RUN; 3, `DOWN; 4, `DESTROY; 3, `HOLD; 3, `REL; 2, `TF; 2, `CRr; 1, `EVE; 1, `STOP; 1, `DISCONNECT; 1, `RETRY; 2, `RUN1 ]
+      [ 4, `CONNECT; 5, `EVW0; 5, `RUN; 3, `DOWN; 4, `DESTROY; 3, `HOLD; 3, `REL; 2, `TF; 2, `CRr; 1, `EVE; 1, `STOP; 1, `DISCONNECT; 1, `RETRY; 2, `RUN1; 2, `LOOPEND ]
     | 4 -> (* foreign threads *)
       [ 3, `XCF; 4, `XCE; 3, `XSF; 4, `XSE; 3, `XDF; 4, `XDR; 2, `XYR; 3, `XYD; 1, `EVWY; 4, `EVW0; 5, `RUN; 3, `RUN1; 2, `DOWN; 2, `TF; 2, `CRr; 1, `RETRY; 1, `CONNECT; 1, `EVWe ]
     | _ ->
       [ 3, `CONNECT; 2, `DISCONNECT; 2, `STOP; 1, `RETRY; 1, `DESTROY; 1, `XCF; 1, `XCE; 1, `XSF; 1, `XSE; 1, `XDF; 1, `XDR; 1, `XYR; 1, `XYD;
-        2, `CRr; 1, `CRany; 3, `EVW0; 2, `EVWe; 1, `EVWs; 1, `EVE; 3, `TF; 4, `RUN; 1, `RUN1; 2, `DOWN; 1, `HOLD; 1, `REL ] in
+        2, `CRr; 1, `CRany; 3, `EVW0; 2, `EVWe; 1, `EVWs; 1, `EVE; 3, `TF; 4, `RUN; 1, `RUN1; 2, `DOWN; 1, `HOLD; 1, `REL; 1, `LOOPEND ] in
   let tot = List.fold_left (fun a (x, _) -> a + x) 0 w in
   let r = ref (Random.int tot) in
   let k = ref (snd (List.hd w)) in
@@ -98,7 +99,7 @@ let pick profile =
   | `DESTROY -> "DESTROY", Destroy | `XCF -> "XCF", XConnectFlags | `XCE -> "XCE", XConnectEnq | `XSF -> "XSF", XStopFlags
   | `XSE -> "XSE", XStopEnq | `XDF -> "XDF", XDisconnectFlag | `XDR -> "XDR", XDisconnectRest | `XYR -> "XYR", XDestroyRead
   | `XYD -> "XYD", XDestroyRest | `EVWY -> "EVWY", XDestroyInWrite | `EVE -> "EVE", EvError | `TF -> "TF", TimerFire | `RUN -> "RUN", RunPending | `RUN1 -> "RUN1", RunOne
-  | `DOWN -> "DOWN", Down | `HOLD -> "HOLD", UserHold | `REL -> "REL", UserRelease
+  | `DOWN -> "DOWN", Down | `HOLD -> "HOLD", UserHold | `REL -> "REL", UserRelease | `LOOPEND -> "LOOPEND", LoopEnd
   | `EVW0 -> "EVW 0 0", EvWritable (z_of_int 0, false)
   | `EVWs -> "EVW 0 1", EvWritable (z_of_int 0, true)
   | `EVWe -> let e = errs.(1 + Random.int (Array.length errs - 1)) in "EVW " ^ err_name e ^ " 0", EvWritable (z_of_int e, false)
@@ -141,7 +142,7 @@ let run_cases () =
         | ["CR"; e] -> ConnectResult (z_of_int (errno_of e))
         | ["EVW"; e; sc] -> EvWritable (z_of_int (errno_of e), sc = "1")
         | ["EVE"] -> EvError | ["TF"] -> TimerFire | ["RUN"] -> RunPending | ["RUN1"] -> RunOne
-        | ["DOWN"] -> Down | ["HOLD"] -> UserHold | ["REL"] -> UserRelease
+        | ["DOWN"] -> Down | ["HOLD"] -> UserHold | ["REL"] -> UserRelease | ["LOOPEND"] -> LoopEnd
         | _ -> failwith ("bad op: " ^ line) in
       (match step !s o with
        | Ok (s', evs) -> s := s'; show "ok" evs s'
